@@ -344,4 +344,33 @@ fn main() {
         }));
         println!("(c) traversal, reset, traversal: {:?} (expected equal lengths, same)", r.map_err(|_| "PANIC"));
     });
+    run("S27 code entry with local groups whose counts sum past u32::MAX (C03)", || {
+        // (module (type (func)) (func (type 0) (local 0xFFFFFFFF x i32) (local 0xFFFFFFFF x i32)))
+        let mut m: Vec<u8> = vec![0x00, 0x61, 0x73, 0x6d, 0x01, 0x00, 0x00, 0x00];
+        m.extend_from_slice(&[0x01, 0x04, 0x01, 0x60, 0x00, 0x00]);           // type section: one func type () -> ()
+        m.extend_from_slice(&[0x03, 0x02, 0x01, 0x00]);                       // function section: one function of type 0
+        let body: Vec<u8> = vec![0x02, 0xff, 0xff, 0xff, 0xff, 0x0f, 0x7f, 0xff, 0xff, 0xff, 0xff, 0x0f, 0x7f, 0x0b];
+        let mut code = vec![0x01, body.len() as u8]; code.extend_from_slice(&body);
+        m.push(0x0a); m.push(code.len() as u8); m.extend_from_slice(&code);
+        let r = catch_unwind(AssertUnwindSafe(|| Module::parse(&m, false).map(|_| ()).map_err(|e| format!("{:?}", e))));
+        println!("parse: {:?} (expected Ok or Err, never a panic)", r.map_err(|_| "PANIC"));
+    });
+    run("S28 special instrumentation on the first local function after an imported function was deleted (C17 / C09)", || {
+        // expected: the entry probe (i32.const 77; drop) is the first code of the first local function, whatever happened to the imports
+        let w = wat::parse_str(r#"(module (import "a" "f0" (func)) (import "a" "f1" (func)) (func $l0 nop) (func $l1 nop nop))"#).unwrap();
+        for delete_import in [false, true] {
+            let mut m = Module::parse(&w, false).unwrap();
+            if delete_import { m.delete_func(FunctionID(0)); }
+            {
+                let mut fm = m.functions.get_fn_modifier(FunctionID(2)).unwrap();
+                fm.func_entry();
+                fm.i32_const(77);
+                fm.drop();
+                fm.finish_instr();
+            }
+            let b = m.encode();
+            let txt = wasmprinter::print_bytes(&b).unwrap_or_default();
+            println!("import deleted: {}  validates: {}  entry probe present: {}", delete_import, wasmparser::validate(&b).is_ok(), txt.contains("i32.const 77"));
+        }
+    });
 }
